@@ -131,7 +131,17 @@ def run(ctx):
     det = repo.func(REL, "HTMLBinaryInputStream.determineEncoding")
 
     # ---- C06.1
-    chain = extract_chain(det)
+    evaluated = precedence_evaluated(ctx, det, binary)
+    try:
+        chain = extract_chain(det)
+    except AnalysisError:
+        if not evaluated:
+            raise
+        r.note("C06: determineEncoding is not written as the recognised chain of early returns; its precedence was decided by running it")
+        chain = None
+    if chain is None:
+        _after_chain(ctx, repo, binary, det, r)
+        return
     got = [(s, c) for s, c, g in chain]
     exp = list(EXPECTED_ORDER)
     if ("chardet", "tentative") not in got:
@@ -149,6 +159,81 @@ def run(ctx):
                     "same_origin_parent_encoding is accepted without the not-UTF-16 guard (guard: %r)" % g)
         elif s not in ("chardet",):
             r.check("C06.1", g == "", "guard:%s" % s, det.where, "source %s has an extra guard %r" % (s, g))
+    _after_chain(ctx, repo, binary, det, r)
+
+
+ENCODING_LABELS = {
+    "utf-8": ("utf-8", "utf8", "unicode-1-1-utf-8"), "koi8-r": ("koi8-r", "koi8_r", "koi", "koi8", "cskoi8r"),
+    "windows-1252": ("windows-1252", "latin1", "iso-8859-1", "ascii", "us-ascii", "cp1252"), "iso-8859-2": ("iso-8859-2", "latin2"),
+    "utf-16le": ("utf-16le", "utf-16", "unicode", "ucs-2", "csunicode", "iso-10646-ucs-2", "unicodefeff"), "utf-16be": ("utf-16be", "unicodefffe"),
+    "shift_jis": ("shift_jis", "sjis", "ms_kanji"), "euc-jp": ("euc-jp",), "big5": ("big5",),
+}
+
+
+def precedence_evaluated(ctx, det, binary) -> bool:
+    """C06.1 by running determineEncoding from its source (sa/classeval.py) with models of its inputs: detectBOM and
+    detectEncodingMeta return what the scenario says, lookupEncoding is the Encoding Standard's label table (a few encodings, all
+    the UTF-16 aliases).  For every pair of sources the documented one wins with the documented confidence; a label that names
+    no encoding falls through; a parent encoding in the UTF-16 family -- under any of its labels -- is not inherited."""
+    from ..classeval import ClassEval, Record
+    r = ctx.r
+    encs = {name: Record(name=name) for name in ENCODING_LABELS}
+    by_label = {lab: encs[name] for name, labs in ENCODING_LABELS.items() for lab in labs}
+
+    def lookup(x):
+        if x is None:
+            return None
+        if isinstance(x, Record):
+            return x
+        if isinstance(x, bytes):
+            try:
+                x = x.decode("ascii")
+            except UnicodeDecodeError:
+                return None
+        if not isinstance(x, str):
+            return None
+        return by_label.get(x.strip("\t\n\x0c\r ").lower())
+    order = ["bom", "override_encoding", "transport_encoding", "meta", "same_origin_parent_encoding", "likely_encoding", "default_encoding"]
+    conf = {"bom": "certain", "override_encoding": "certain", "transport_encoding": "certain"}
+    labels = ["koi8-r", "iso-8859-2", "shift_jis", "euc-jp", "big5", "utf-8", "windows-1252"]
+
+    def run(sc):
+        attrs = {k: sc.get(k) for k in order if k not in ("bom", "meta")}
+        attrs.setdefault("default_encoding", None)
+        evl = ClassEval(ctx.ce, det.module, binary, attrs, repo=ctx.repo)
+        evl.method_models = {"detectBOM": lambda: lookup(sc.get("bom")), "detectEncodingMeta": lambda: lookup(sc.get("meta"))}
+        evl.function_models = {"lookupEncoding": lookup}
+        return evl.call(det.name, [False] if len(det.params()) > 1 else [])
+    cases = []
+    for i, a in enumerate(order):
+        cases.append(("only %s" % a, {a: labels[i]}, (labels[i], conf.get(a, "tentative"))))
+        cases.append(("%s names no encoding" % a, {a: "x-bogus", "default_encoding": "koi8-r"} if a != "default_encoding" else {a: "x-bogus"},
+                      ("koi8-r", "tentative") if a != "default_encoding" else ("windows-1252", "tentative")))
+        for j in range(i + 1, len(order)):
+            b = order[j]
+            cases.append(("%s and %s" % (a, b), {a: labels[i], b: labels[j]}, (labels[i], conf.get(a, "tentative"))))
+    cases.append(("nothing given", {}, ("windows-1252", "tentative")))
+    for lab in ("utf-16le", "utf-16be", "utf-16", "unicode", "ucs-2", "csunicode", "iso-10646-ucs-2", "unicodefeff", "unicodefffe", " UTF-16 ", b"utf-16"):
+        cases.append(("parent %r" % (lab,), {"same_origin_parent_encoding": lab, "likely_encoding": "koi8-r"}, ("koi8-r", "tentative")))
+    cases.append(("parent b'koi8-r'", {"same_origin_parent_encoding": b"koi8-r", "likely_encoding": "big5"}, ("koi8-r", "tentative")))
+    n = 0
+    try:
+        for label, sc, want in cases:
+            got = run(sc)
+            ok = isinstance(got, tuple) and len(got) == 2 and isinstance(got[0], Record) and (got[0].name, got[1]) == want
+            n += 1
+            r.check("C06.1", ok, "evaluated::%s" % label, det.where,
+                    "determineEncoding with %s returns %s; the documented precedence (BOM > override > transport > <meta> pre-scan > parent, never "
+                    "UTF-16 > likely > default > windows-1252; the first three certain) gives %s" % (
+                        {k: v for k, v in sc.items()}, (got[0].name, got[1]) if isinstance(got, tuple) and isinstance(got[0], Record) else got, want),
+                    {"scenario": label}, detail={"scenario": label})
+    except AnalysisError as e:
+        r.note("C06: determineEncoding not evaluable as a whole (%s); its chain of early returns is read instead" % str(e)[:120])
+        return False
+    return True
+
+
+def _after_chain(ctx, repo, binary, det, r):
     # constructor wiring: parameters are stored under their own names; default_encoding defaults to windows-1252
     init = repo.func(REL, "HTMLBinaryInputStream.__init__")
     params = init.params()
@@ -300,8 +385,8 @@ def run(ctx):
                         "%s:%d" % (f.module.rel, c.lineno),
                         "changeEncoding is called without a dominating test that the confidence is 'tentative': document "
                         "content could change a certain encoding")
-    if n_calls < 2:
-        raise AnalysisError("found %d changeEncoding call sites (expected >= 2)" % n_calls)
+    if n_calls < 1:
+        raise AnalysisError("found %d changeEncoding call sites (expected >= 1)" % n_calls)
 
     # accepting a declaration makes the encoding certain: every path of changeEncoding that does not leave through the
     # "label unknown" return or the restart stores (<encoding>, 'certain')
@@ -862,6 +947,87 @@ def decoder_rule(ctx, rid):
                     "iso-8859-8-i, ...) raise LookupError and CJK encodings decode differently from what documentEncoding reports" % dtxt[:70])])
 
 
+def _extract_charset(data):
+    """the standard's "algorithm for extracting a character encoding from a meta element", on bytes; -> label (bytes) or None"""
+    ws = b"\t\n\x0c\r "
+    low = data.lower()
+    pos = 0
+    while True:
+        k = low.find(b"charset", pos)
+        if k < 0:
+            return None
+        pos = k + 7
+        while pos < len(data) and data[pos:pos + 1] in ws:
+            pos += 1
+        if data[pos:pos + 1] != b"=":
+            continue
+        pos += 1
+        while pos < len(data) and data[pos:pos + 1] in ws:
+            pos += 1
+        if pos >= len(data):
+            return None
+        q = data[pos:pos + 1]
+        if q in (b'"', b"'"):
+            end = data.find(q, pos + 1)
+            return data[pos + 1:end] if end >= 0 else None
+        end = pos
+        while end < len(data) and data[end:end + 1] not in ws + b";":
+            end += 1
+        return data[pos:end]
+
+
+def late_meta_evaluated(ctx, f, cases) -> bool:
+    """C06.7 (a) by running InHeadPhase.startTagMeta from its source (sa/classeval.py), helpers in other modules included, with
+    models of the stream (confidence, a recording changeEncoding), of lookupEncoding (every label but `bogus` names an encoding)
+    and of the content-attribute extractor (the standard's algorithm, transcribed; the real one is decided by C06.14 / C06.7 c)."""
+    from ..classeval import ClassEval, Record
+    r = ctx.r
+
+    def lookup(x):
+        if x is None:
+            return None
+        if isinstance(x, bytes):
+            x = x.decode("ascii", "replace")
+        return None if x.strip().lower() in ("bogus", "") else "ENC:" + x.strip().lower()
+    extra = [("charset-unknown-with-pragma", {"charset": "bogus", "http-equiv": "content-type", "content": "text/html; charset=koi8-r"}, True),
+             ("charset-and-pragma", {"charset": "utf-8", "http-equiv": "content-type", "content": "text/html; charset=koi8-r"}, True),
+             ("pragma-unknown-label", {"http-equiv": "content-type", "content": "text/html; charset=bogus"}, False),
+             ("pragma-no-charset", {"http-equiv": "content-type", "content": "text/html"}, False)]
+    results = []
+    try:
+        for conf in ("tentative", "certain"):
+            for label, attrs, want in list(cases) + extra:
+                calls = []
+                stream = Record(charEncoding=("ENC:x", conf), changeEncoding=lambda enc, calls=calls: calls.append(enc))
+                stack = [Record(name="html"), Record(name="head")]
+                tree = Record(insertElement=lambda tok, stack=stack: stack.append(Record(name=tok["name"])), openElements=stack)
+                parser = Record(tokenizer=Record(stream=stream))
+                evl = ClassEval(ctx.ce, f.module, f.cls, {"tree": tree, "parser": parser}, repo=ctx.repo)
+                evl.function_models = {"lookupEncoding": lookup, "EncodingBytes": lambda b: b,
+                                       "ContentAttrParser": lambda data: Record(parse=lambda: _extract_charset(data))}
+                evl.call(f.name, [{"type": 3, "name": "meta", "data": dict(attrs), "selfClosing": False}])
+                effective = [lookup(c) for c in calls if lookup(c) is not None]
+                results.append((conf, label, attrs, want, effective))
+    except AnalysisError as e:
+        r.note("C06: InHeadPhase.startTagMeta not evaluable as a whole (%s); decided by branch partition" % str(e)[:120])
+        return False
+    for conf, label, attrs, want, effective in results:
+        exp = want and conf == "tentative"
+        key = "late-meta[%s %s]" % (conf, label)
+        std = None
+        if exp:
+            cs = attrs.get("charset")
+            std = lookup(cs) if cs is not None and lookup(cs) is not None else lookup(_extract_charset(attrs.get("content", "").encode("utf-8")))
+        ok = (bool(effective) == exp) and (not exp or effective[-1] == std)
+        r.check("C06.7", ok, key, f.where,
+                "<meta %s> seen by the tree builder while the encoding is %s: html5lib asks for %s; the standard %s (a charset attribute that "
+                "names an encoding wins; otherwise http-equiv=content-type, ASCII case-insensitively, with a content attribute)"
+                % (" ".join("%s=%r" % kv for kv in attrs.items()), conf, effective or "no encoding change",
+                   "changes to %s" % std if exp else "changes nothing"), {"attrs": attrs, "confidence": conf},
+                detail={"attrs": attrs, "confidence": conf, "changeEncoding": effective})
+    return True
+
+
 def meta_rules(ctx):
     """C06.7: (a) the late <meta> handler asks for an encoding change for charset=..., and for http-equiv=content-type (ASCII
     case-insensitively) with a content attribute -- and for nothing else; (b) the prescan's quoted attribute value ends at the
@@ -884,56 +1050,60 @@ def meta_rules(ctx):
         ("name-only", {"name": "charset", "content": "x"}, False),
         ("empty", {}, False),
     ]
-    for conf in ("tentative", "certain"):
-        for label, attrs, want in cases:
-            def hook(node, local, conf=conf):
-                t = norm(node)
-                if t == "self.parser.tokenizer.stream.charEncoding[1]":
-                    return conf
-                if t == "self.parser.tokenizer.stream.charEncoding":
-                    return ("x", conf)
-                if isinstance(node, ast.Call) and norm(node.func).endswith("lookupEncoding") and len(node.args) == 1:
-                    return None if ce.eval(node.args[0], f.module, local) == "bogus" else "ENC"
-                return NotImplemented
-            interp = MiniInterp(ce, f.module, expr_hook=hook)
-            key = "late-meta[%s %s]" % (conf, label)
-            try:
-                res = interp.run(f.node.body, {tok: {"type": 3, "name": "meta", "data": dict(attrs), "selfClosing": False}, "self": Opaque("self")})
-            except AnalysisError as e:
-                r.idiom("C06.7", False, key, f.where, "startTagMeta not decidable for %s (%s)" % (label, str(e)[:80]))
-                continue
-            changes = [e for e in res.effects if "changeEncoding(" in e.text]
-            exp = want and conf == "tentative"
-            r.check("C06.7", bool(changes) == exp, key, f.where,
-                    "<meta %s> seen by the tree builder while the encoding is %s: html5lib %s an encoding change; the standard %s"
-                    % (" ".join("%s=%r" % kv for kv in attrs.items()), conf, "asks for" if changes else "does not ask for",
-                       "does" if exp else "does not"), {"attrs": attrs, "confidence": conf},
-                    detail={"attrs": attrs, "confidence": conf, "changeEncoding": bool(changes)})
-    # a charset attribute that names no encoding does not count: the standard goes on to the http-equiv / content pair ("if the
-    # element has a charset attribute, *and getting an encoding from its value results in an encoding*"); changeEncoding() with
-    # an unknown label does nothing, so deciding on the mere presence of the attribute loses the declaration
-    def hook2(node, local):
-        t = norm(node)
-        if t == "self.parser.tokenizer.stream.charEncoding[1]":
-            return "tentative"
-        if t == "self.parser.tokenizer.stream.charEncoding":
-            return ("x", "tentative")
-        if isinstance(node, ast.Call) and norm(node.func).endswith("lookupEncoding") and len(node.args) == 1:
-            v = ce.eval(node.args[0], f.module, local)
-            return None if v == "bogus" else "ENC"
-        return NotImplemented
-    key = "late-meta[tentative charset-unknown-with-pragma]"
-    attrs = {"charset": "bogus", "http-equiv": "content-type", "content": "text/html; charset=x"}
-    try:
-        res = MiniInterp(ce, f.module, expr_hook=hook2).run(f.node.body, {tok: {"type": 3, "name": "meta", "data": dict(attrs), "selfClosing": False}, "self": Opaque("self")})
-        calls = [c for e in res.effects for c in ast.walk(e.node) if isinstance(c, ast.Call) and norm(c.func).endswith("changeEncoding")]
-        from_pragma = [c for c in calls if c.args and "'charset'" not in norm(c.args[0])]
-        r.check("C06.7", bool(from_pragma), key, f.where,
-                "<meta charset=bogus http-equiv=content-type content='text/html; charset=koi8-r'> seen by the tree builder while the encoding is "
-                "tentative: html5lib asks for %s; the unknown label does nothing and the valid pragma next to it is never looked at (the "
-                "standard falls back to it)" % ([norm(c) for c in calls] or "no encoding change"), {"attrs": attrs})
-    except AnalysisError as e:
-        r.idiom("C06.7", False, key, f.where, "startTagMeta not decidable for this case (%s)" % str(e)[:80])
+    def _by_partition():
+        for conf in ("tentative", "certain"):
+            for label, attrs, want in cases:
+                def hook(node, local, conf=conf):
+                    t = norm(node)
+                    if t == "self.parser.tokenizer.stream.charEncoding[1]":
+                        return conf
+                    if t == "self.parser.tokenizer.stream.charEncoding":
+                        return ("x", conf)
+                    if isinstance(node, ast.Call) and norm(node.func).endswith("lookupEncoding") and len(node.args) == 1:
+                        return None if ce.eval(node.args[0], f.module, local) == "bogus" else "ENC"
+                    return NotImplemented
+                interp = MiniInterp(ce, f.module, expr_hook=hook)
+                key = "late-meta[%s %s]" % (conf, label)
+                try:
+                    res = interp.run(f.node.body, {tok: {"type": 3, "name": "meta", "data": dict(attrs), "selfClosing": False}, "self": Opaque("self")})
+                except AnalysisError as e:
+                    r.idiom("C06.7", False, key, f.where, "startTagMeta not decidable for %s (%s)" % (label, str(e)[:80]))
+                    continue
+                changes = [e for e in res.effects if "changeEncoding(" in e.text]
+                exp = want and conf == "tentative"
+                r.check("C06.7", bool(changes) == exp, key, f.where,
+                        "<meta %s> seen by the tree builder while the encoding is %s: html5lib %s an encoding change; the standard %s"
+                        % (" ".join("%s=%r" % kv for kv in attrs.items()), conf, "asks for" if changes else "does not ask for",
+                           "does" if exp else "does not"), {"attrs": attrs, "confidence": conf},
+                        detail={"attrs": attrs, "confidence": conf, "changeEncoding": bool(changes)})
+        # a charset attribute that names no encoding does not count: the standard goes on to the http-equiv / content pair ("if the
+        # element has a charset attribute, *and getting an encoding from its value results in an encoding*"); changeEncoding() with
+        # an unknown label does nothing, so deciding on the mere presence of the attribute loses the declaration
+        def hook2(node, local):
+            t = norm(node)
+            if t == "self.parser.tokenizer.stream.charEncoding[1]":
+                return "tentative"
+            if t == "self.parser.tokenizer.stream.charEncoding":
+                return ("x", "tentative")
+            if isinstance(node, ast.Call) and norm(node.func).endswith("lookupEncoding") and len(node.args) == 1:
+                v = ce.eval(node.args[0], f.module, local)
+                return None if v == "bogus" else "ENC"
+            return NotImplemented
+        key = "late-meta[tentative charset-unknown-with-pragma]"
+        attrs = {"charset": "bogus", "http-equiv": "content-type", "content": "text/html; charset=x"}
+        try:
+            res = MiniInterp(ce, f.module, expr_hook=hook2).run(f.node.body, {tok: {"type": 3, "name": "meta", "data": dict(attrs), "selfClosing": False}, "self": Opaque("self")})
+            calls = [c for e in res.effects for c in ast.walk(e.node) if isinstance(c, ast.Call) and norm(c.func).endswith("changeEncoding")]
+            from_pragma = [c for c in calls if c.args and "'charset'" not in norm(c.args[0])]
+            r.check("C06.7", bool(from_pragma), key, f.where,
+                    "<meta charset=bogus http-equiv=content-type content='text/html; charset=koi8-r'> seen by the tree builder while the encoding is "
+                    "tentative: html5lib asks for %s; the unknown label does nothing and the valid pragma next to it is never looked at (the "
+                    "standard falls back to it)" % ([norm(c) for c in calls] or "no encoding change"), {"attrs": attrs})
+        except AnalysisError as e:
+            r.idiom("C06.7", False, key, f.where, "startTagMeta not decidable for this case (%s)" % str(e)[:80])
+
+    if not late_meta_evaluated(ctx, f, cases):
+        _by_partition()
     # (b)
     g = repo.func(REL, "EncodingParser.getAttribute")
     genv = ce.local_env(g.node, g.module)
